@@ -454,7 +454,7 @@ theorem vcInsert_I_spec (s : VS) (body cs : List Nat) (K rest : Bytes)
     | cons c t => exact ⟨c, t, rfl⟩
   have hl := lineOf_of_get s _ _ hr0 hline
   have hhd := headD_line_ne_ten c0 t0 hb10
-  have hi := indents_line s _ (c0 :: t0) hr0 hb hline hk'
+  have hi := indents_line s _ (c0 :: t0) hr0 hb hb10 hline hk'
   have hx := renNoeol_body (c0 :: t0) hb hb10 _ hk'
   obtain ⟨e1, e2⟩ := subI_line (c0 :: t0) hb _ (Nat.le_of_lt hk')
   rw [vcInsert_I_red s _ _ _ hl (by rw [hhd, hi, hx]; exact e1) (by rw [hhd, hi, hx]; exact e2)]
